@@ -5,6 +5,13 @@ import GIVerif.Model.GirConsume
 
 namespace GIVerif.GirConsume
 
+instance instDecEqExcept {ε α : Type} [DecidableEq ε] [DecidableEq α] : DecidableEq (Except ε α) := fun a b =>
+  match a, b with
+  | .ok x, .ok y => if h : x = y then isTrue (by rw [h]) else isFalse (fun e => h (by cases e; rfl))
+  | .error x, .error y => if h : x = y then isTrue (by rw [h]) else isFalse (fun e => h (by cases e; rfl))
+  | .ok _, .error _ => isFalse (fun e => by cases e)
+  | .error _, .ok _ => isFalse (fun e => by cases e)
+
 /-- well-nested event sequences: what an XML parser delivers for a forest of elements -/
 inductive WN : List Ev → Prop where
   | nil : WN []
@@ -68,6 +75,62 @@ theorem run_passthrough_wn (evs : List Ev) (hw : WN evs) :
     simp only [run, step, h2]
     exact ihr c hs hd
 
+theorem stateSwitch_ok {c' : Ctx} {s : String} {r : Ctx} (h : stateSwitch c' s = .ok r) :
+    r = { c' with prev := c'.state, state := s, depth := if s = "PASSTHROUGH" then 1 else c'.depth } := by
+  unfold stateSwitch at h
+  split at h
+  · cases h
+  · cases h; rfl
+
+/-- what entering PASSTHROUGH from outside looks like: only state, prev_state, the counter and the log change -/
+theorem startEv_enters_passthrough (c c1 : Ctx) (n : String) (hidden : Bool)
+    (hs : c.state ≠ "PASSTHROUGH")
+    (hrow : ∀ r, lookup c.state n (!c.stack.isEmpty) = some r → r.prelude = true → r.target ≠ "PASSTHROUGH")
+    (h1 : startEv c n hidden = .ok c1) (hp : c1.state = "PASSTHROUGH") :
+    ∃ entry, c1 = { c with prev := c.state, state := "PASSTHROUGH", depth := 1, log := c.log ++ [entry] } := by
+  unfold startEv at h1
+  rw [if_neg hs] at h1
+  cases hl : lookup c.state n (!c.stack.isEmpty) with
+  | none =>
+    rw [hl] at h1
+    have := stateSwitch_ok h1
+    exact ⟨_, by simpa using this⟩
+  | some r =>
+    rw [hl] at h1
+    simp only at h1
+    by_cases hpre : r.prelude = true
+    · rw [if_pos hpre] at h1
+      by_cases hh : hidden = true
+      · rw [if_pos hh] at h1
+        have := stateSwitch_ok h1
+        exact ⟨"~" ++ n, by simpa using this⟩
+      · rw [if_neg hh] at h1
+        exfalso
+        have ht := hrow r hl hpre
+        cases hsw : stateSwitch { c with log := c.log ++ ["+" ++ n] } r.target with
+        | error m => simp [hsw, bind, Except.bind] at h1
+        | ok c' =>
+          have e := stateSwitch_ok hsw
+          simp only [hsw, bind, Except.bind, pure, Except.pure] at h1
+          cases h1
+          subst e
+          split at hp <;> split at hp <;> simp_all
+    · rw [if_neg hpre] at h1
+      by_cases hsw' : r.switch = true
+      · rw [if_pos hsw'] at h1
+        cases hsw : stateSwitch { c with log := c.log ++ ["+" ++ n] } r.target with
+        | error m => simp [hsw, bind, Except.bind] at h1
+        | ok c' =>
+          have e := stateSwitch_ok hsw
+          simp only [hsw, bind, Except.bind, pure, Except.pure] at h1
+          cases h1
+          subst e
+          refine ⟨"+" ++ n, ?_⟩
+          split at hp <;> simp_all
+      · rw [if_neg hsw'] at h1
+        exfalso
+        simp only [pure, Except.pure] at h1
+        split at h1 <;> (cases h1; simp_all)
 theorem wn_append {xs ys : List Ev} (hx : WN xs) (hy : WN ys) : WN (xs ++ ys) := by
   induction hx with
   | nil => simpa using hy
